@@ -31,6 +31,8 @@ func C11(c *core.Ctx) {
 	c11Enums(c)
 	c11Bounds(c)
 	c11NullItems(c)
+	c11ShippedPatterns(c, "C11-R9")
+	c11CurrencyEnum(c, "C11-R10")
 	// R6: a validator that decides membership of a published closed list looks the value up as given
 	c.Rule("C11-R6", "lookups that decide membership of a published closed list use the value exactly (shared with C18-R5)", 4)
 	sub := core.NewCtx("C18", c.Tier, c.Seed, c.P, c.VerifDir)
